@@ -158,7 +158,13 @@ def run(case):
             df = mole.to_dataframe()
             case.check(df.columns[:6] == ["z", "y", "x", "zvec", "yvec", "xvec"] and
                        df.columns[6:] == feats.columns, "to_dataframe column layout wrong", cols=df.columns)
+            df_keep = df.clone()
             back = Molecules.from_dataframe(df)
+            case.check(df.columns == df_keep.columns and df.equals(df_keep),
+                       "from_dataframe modified the data frame it was given", None, cols=df.columns)
+            again_ = Molecules.from_dataframe(df_keep)
+            case.check(len(again_) == len(back) and np.array_equal(again_.pos, back.pos), "reading the same data frame twice "
+                       "gives different molecules", None)
         if is_csv and route != "dataframe":
             with open(path) as f:
                 header = f.readline().strip().split(",")
